@@ -1,1 +1,4 @@
 (* C09 - placeholder, theorems follow *)
+From Coq Require Import List.
+Theorem C09_placeholder : True. Proof. exact I. Qed.
+Print Assumptions C09_placeholder.
